@@ -385,6 +385,7 @@ def front_end(R, F):
     guarded(R, 'T regex', engine_t.rule_regex, F, R)
     guarded(R, 'T input text', engine_t.rule_input_text, F, R)
     guarded(R, 'T number text', engine_t.rule_number_text, F, R)
+    guarded(R, 'T reference text', engine_t.rule_reference_text, F, R)
     # ... and the grammar: what the parser accepts, and which parsed piece ends up in which field of a syntax node
     guarded(R, 'A1', engine_a.rule_A1, F, R)
     guarded(R, 'A helpers', engine_a.rule_helpers, F, R)
@@ -429,6 +430,8 @@ def check_C08(F, tier, t0):
     guarded(R, 'T operators', engine_t.rule_operator_tables, F, R)
     guarded(R, 'T regex', engine_t.rule_regex, F, R)
     guarded(R, 'T input text', engine_t.rule_input_text, F, R)
+    guarded(R, 'T number text', engine_t.rule_number_text, F, R)
+    guarded(R, 'T reference text', engine_t.rule_reference_text, F, R)
     R.floor('A1:consuming-parse-functions', 10); R.floor('A1:calls-to-consuming-functions', 30); R.floor('A2:parse-functions-walked', 10)
     R.floor('A3:constructor-paths', 20); R.floor('A3:constructors-expected', 13); R.floor('T:regex-symbols', 20); R.floor('T:regex-groups', 6)
     return finish(R, 'other', tier, t0,
